@@ -228,6 +228,9 @@ lzma2_decoder_init(lzma_lz_decoder *lz, const lzma_allocator *allocator,
 		lzma_vli id lzma_attribute((__unused__)), const void *opt,
 		lzma_lz_options *lz_options)
 {
+	if (opt == NULL)
+		return LZMA_PROG_ERROR;
+
 	lzma_lzma2_coder *coder = lz->coder;
 	if (coder == NULL) {
 		coder = lzma_alloc(sizeof(lzma_lzma2_coder), allocator);
@@ -269,6 +272,9 @@ lzma_lzma2_decoder_init(lzma_next_coder *next, const lzma_allocator *allocator,
 extern uint64_t
 lzma_lzma2_decoder_memusage(const void *options)
 {
+	if (options == NULL)
+		return UINT64_MAX;
+
 	return sizeof(lzma_lzma2_coder)
 			+ lzma_lzma_decoder_memusage_nocheck(options);
 }
